@@ -43,6 +43,14 @@ def put_ellipsis(draw, v):
         d = dict(values.get_at(v, p))
         d[...] = draw(st.one_of(values.junk_scalar, st.just(...)))
         return values.replace_at(v, p, d)
+    lists = [p for p in ps if isinstance(values.get_at(v, p), list)]
+    if lists and draw(st.integers(0, 2)) == 0:
+        # a list written open-ended (`[a, b, c, ...]` / `[..., a, b, c]`), possibly with more members than its schema allows
+        p = draw(st.sampled_from(lists))
+        x = list(values.get_at(v, p))
+        x = x + x[:draw(st.integers(0, 3))] + ([draw(values.junk_scalar)] if draw(st.booleans()) else [])
+        x = x + [...] if draw(st.booleans()) else [...] + x
+        return values.replace_at(v, p, x)
     p = draw(st.sampled_from(ps))
     return values.replace_at(v, p, ...)
 
